@@ -40,6 +40,13 @@ Theorem C10_spec_averages_well_defined :
   (forall m m' terms, is_wmean m terms -> is_wmean m' terms -> (m == m')%Q).
 Proof. split; [exact is_median_unique | exact is_wmean_unique]. Qed.
 
+(* an order-free reading of the Spec's median: at least half of the values are <= m and at
+   least half are >= m (so the sort in [is_median] is only a way to say "the middle") *)
+Theorem C10_median_splits_the_values : forall m l, is_median m l ->
+  (length l <= 2 * length (filter (fun x => Qle_bool x m) l))%nat /\
+  (length l <= 2 * length (filter (fun x => Qle_bool m x) l))%nat.
+Proof. exact median_splits. Qed.
+
 (* ================================================================== median *)
 
 (* For every map, mask, image size (also smaller than the filter), odd filter size 2*rad+1,
@@ -259,6 +266,7 @@ Print Assumptions C10_block_sizes_wf.
 Print Assumptions C10_constants.
 Print Assumptions C10_window_is_the_neighbourhood.
 Print Assumptions C10_spec_averages_well_defined.
+Print Assumptions C10_median_splits_the_values.
 Print Assumptions C10_median_eq_spec.
 Print Assumptions C10_median_eq_spec_at_code_constants.
 Print Assumptions C10_median_between_min_max.
